@@ -282,12 +282,9 @@ func (in *Interp) stmt(s gen.Stmt, e *env, fe *fenv) comp {
 		}
 		vals := destructure(v, len(s.Names))
 		for i, n := range s.Names {
-			// `:=` re-uses a name already declared in this very scope, defines the others
-			if c := e.lookupBlock(n); c != nil {
-				in.setCell(c, vals[i])
-			} else {
-				e.define(n, vals[i])
-			}
+			// `:=` is a declaration: one fresh variable per executed declaration, also for a name that is already
+			// declared in this very scope (a closure created before keeps the variable it captured)
+			e.define(n, vals[i])
 		}
 		return normal
 	case gen.Var:
